@@ -148,6 +148,11 @@ type Uint64MapBuilder struct {
 }
 
 func NewUint64MapBuilder(bucketBits int, tagBits int) *Uint64MapBuilder {
+	// Bucket headers store (id >> bucketBits) << tagBits in 64 bits, so
+	// the high bits of an id are lost unless bucketBits >= tagBits.
+	if bucketBits < tagBits {
+		bucketBits = tagBits
+	}
 	return &Uint64MapBuilder{
 		Layout: Uint64MapLayout{
 			BucketBits: bucketBits,
